@@ -10,7 +10,8 @@ patch, run the quick checks, revert; (3) store everything under /verif/seeded/<p
 """
 import json, os, re, shutil, subprocess, sys, time
 
-ROOT = "/verif"
+ROOT = os.path.dirname(os.path.dirname(os.path.abspath(__file__)))  # the (snapshot of) /verif the checks are run from
+DEST = "/verif/seeded"
 ENV = dict(os.environ, GOFLAGS="-mod=mod", GOPROXY="off", GOSUMDB="off", GOTOOLCHAIN="local")
 
 
@@ -20,7 +21,7 @@ def sh(cmd, cwd=None, env=None, timeout=1800):
 
 
 def suite_failures(wt, port):
-    e = dict(ENV, TEST_BASEPORT=str(port))
+    e = dict(ENV, TEST_BASEPORT=str(port), TEST_BASEPORT_SMTP=str(port + 1000))
     rc, out = sh("go test -p 1 -json -vet=off -count=1 ./...", cwd=wt, env=e, timeout=1500)
     passed, failed = set(), set()
     build_fail = False
@@ -57,7 +58,14 @@ def main():
     checks = None
     if "--checks" in sys.argv:
         checks = sys.argv[sys.argv.index("--checks") + 1].split(",")
-    sd = os.path.join(wt, "seed", variant)
+    # the agent's deliverables are moved out of the worktree first (a seed/ directory with *_test.go
+    # files would be picked up by `go test ./...`)
+    outroot = os.path.join("/tmp/seed/out", prop)
+    if os.path.isdir(os.path.join(wt, "seed")):
+        shutil.rmtree(outroot, ignore_errors=True)
+        os.makedirs("/tmp/seed/out", exist_ok=True)
+        shutil.move(os.path.join(wt, "seed"), outroot)
+    sd = os.path.join(outroot, variant)
     meta = {"property": prop, "variant": variant, "evaluated_at": time.strftime("%Y-%m-%dT%H:%M:%SZ", time.gmtime())}
     patch = os.path.join(sd, "patch.diff")
     if not os.path.exists(patch):
@@ -68,7 +76,7 @@ def main():
         if os.path.exists(os.path.join(sd, cand)):
             demo = os.path.join(sd, cand)
             break
-    sh("git checkout -- . && git clean -fdq -e seed", cwd=wt)
+    sh("git checkout -- . && git clean -fdq", cwd=wt)
     base = json.load(open("/root/.vp/BASELINE.json"))
     stable = set(base["stable_pass"])
 
@@ -95,7 +103,7 @@ def main():
         else:
             demo_dst = os.path.join(wt, d, "zz_seed_demo_test.go")
             shutil.copy(demo, demo_dst)
-            demo_cmd = "TEST_BASEPORT=%d go test -vet=off -count=1 -run '^(%s)$' ./%s" % (port + 900, "|".join(tests) or "TestDemo", d)
+            demo_cmd = "TEST_BASEPORT=%d TEST_BASEPORT_SMTP=%d go test -vet=off -count=1 -timeout 300s -run '^(%s)$' ./%s" % (port + 600, port + 1600, "|".join(tests) or "TestDemo", d)
         rc1, out1 = sh(demo_cmd, cwd=wt, timeout=600)
         meta["demo_cmd"] = demo_cmd
         meta["demo_fails_with_patch"] = rc1 != 0
@@ -107,7 +115,7 @@ def main():
             meta["demo_output_without_patch"] = out2[-1500:]
         if demo_dst and os.path.exists(demo_dst):
             os.remove(demo_dst)
-    sh("git checkout -- . && git clean -fdq -e seed", cwd=wt)
+    sh("git checkout -- . && git clean -fdq", cwd=wt)
     meta["confirmed"] = bool(meta.get("patch_applies") and meta.get("builds") and meta.get("suite_ok") and meta.get("demo_fails_with_patch") and meta.get("demo_passes_without_patch"))
 
     # 2. run the checks against /repo with the patch applied
@@ -145,7 +153,7 @@ def main():
     meta["inconclusive"] = sorted(k for k, v in results.items() if v["exit"] == 2)
 
     # 3. store
-    dst = os.path.join(ROOT, "seeded", "%s-%s" % (prop, variant))
+    dst = os.path.join(DEST, "%s-%s" % (prop, variant))
     os.makedirs(dst, exist_ok=True)
     shutil.copy(patch, os.path.join(dst, "patch.diff"))
     if demo:
